@@ -32,6 +32,12 @@ type C01Plan struct {
 	Table  TableSpec `json:"table"`
 	Cfg    IngestCfg `json:"cfg"`
 	Faults []*Fault  `json:"faults,omitempty"`
+	// Synth (instead of Table) + SpillCut: a table large enough for spill files beyond the sorter's read
+	// buffer; one spill file is cut inside a row at the moment the CutAtSet-th object is stored, i.e.
+	// while the sorter is merging and the ingest workers are writing
+	Synth    *SynthSpec `json:"synth,omitempty"`
+	SpillCut *SpillCut  `json:"spill_cut,omitempty"`
+	CutAtSet int        `json:"cut_at_set,omitempty"`
 }
 
 func genIngestCfg(r *Rand) IngestCfg {
@@ -177,6 +183,12 @@ func init() {
 				maxRows = 1200
 			}
 			o := GenOpts{MaxRows: maxRows, AllowNoPK: true, BigCells: r.Chance(0.25), HugeRow: r.Chance(0.08), OverLimit: r.Chance(0.06)}
+			if r.Chance(0.04) {
+				cfg := genIngestCfg(r.Sub("knobs"))
+				cfg.Delim, cfg.RunSize = ",", Pick(r, []uint64{30000, 60000, 100000})
+				return C01Plan{Synth: &SynthSpec{N: r.Range(6000, 12000), NCols: r.Range(2, 4), Seed: r.Uint64()}, Cfg: cfg,
+					SpillCut: &SpillCut{File: r.Intn(8), At: r.Intn(200000), Tail: true}, CutAtSet: r.Range(1, 6)}
+			}
 			return C01Plan{Table: GenTable(r.Sub("data"), o), Cfg: genIngestCfg(r.Sub("knobs"))}
 		},
 		Exec: execC01,
@@ -189,8 +201,13 @@ func execC01(t *testing.T, raw json.RawMessage, res *Result) {
 		res.Invalid("plan: %v", err)
 		return
 	}
-	if err := p.Table.Validate(); err != nil {
-		res.Invalid("plan: %v", err)
+	if p.Synth == nil {
+		if err := p.Table.Validate(); err != nil {
+			res.Invalid("plan: %v", err)
+			return
+		}
+	} else if p.Synth.N < 0 || p.Synth.N > 20000 || p.Synth.NCols > 8 || p.CutAtSet < 0 || p.CutAtSet > 1000 {
+		res.Invalid("plan: synth")
 		return
 	}
 	delim, err := delimRune(p.Cfg.Delim)
@@ -203,6 +220,11 @@ func execC01(t *testing.T, raw json.RawMessage, res *Result) {
 	for i, s := range p.Table.PK {
 		pkNames[i] = ToBytes(s)
 	}
+	if p.Synth != nil {
+		cols, pkNames, rows = p.Synth.Build()
+	}
+	cleanTmp()
+	defer cleanTmp()
 	text := CSVText(cols, rows, delim)
 	pcols, prows, err := ParseCSV(text, delim)
 	if err != nil {
@@ -221,7 +243,30 @@ func execC01(t *testing.T, raw json.RawMessage, res *Result) {
 	st := NewStore("L", w)
 	st.Faults = p.Faults
 	st.Monitor = MonitorC06
+	spillCut := false
+	if p.SpillCut != nil {
+		sets := 0
+		st.Monitor = func(key string, old []byte, had bool, val []byte) string {
+			sets++
+			if sets == max(p.CutAtSet, 1) {
+				sc := *p.SpillCut
+				sc.Tail = true // see SpillCut.Tail: the file is being read while it is cut
+				spillCut = cutSpill(&sc)
+			}
+			return MonitorC06(key, old, had, val)
+		}
+	}
 	run := RunIngest(t, st, text, pkNames, p.Cfg)
+	if spillCut {
+		res.fault("spill_file_truncated", 1)
+		if run.Err != nil {
+			// the sorter met the damaged run and said so: the commit is refused
+			res.probe("spill_damage_reported", 1)
+			res.Nontrivial = true
+			return
+		}
+		res.probe("spill_cut_in_buffered_part", 1) // no error: then the table must be complete (checked below)
+	}
 	res.stat("sim_steps", float64(run.Sched.Steps))
 	res.stat("sched_choices", float64(run.Sched.Choices))
 	res.hashOf(fmt.Sprintf("sched:%x", run.Sched.Hash()))
